@@ -179,6 +179,12 @@ func runCheck(o *options) int {
 		return 2
 	}
 	p.buildEffects()
+	baselineLocals = map[string][]localRec{}
+	if !o.baseline {
+		if b, err := os.ReadFile(filepath.Join(o.verif, "specs", "baseline", o.prop+".locals.json")); err == nil {
+			json.Unmarshal(b, &baselineLocals)
+		}
+	}
 	db, err := loadContracts(p, filepath.Join(o.verif, "specs"))
 	if err != nil {
 		fmt.Fprintln(os.Stderr, "BROKEN: contracts:", err)
@@ -528,6 +534,25 @@ func report(o *options, p *Prog, db *ContractDB, units []*Unit, known []KnownFin
 		os.MkdirAll(dir, 0o755)
 		os.WriteFile(filepath.Join(dir, o.prop+".txt"), []byte("# obligations discharged on the unchanged tree (written by `govc baseline`, never at check time)\n"+strings.Join(discharged, "\n")+"\n"), 0o644)
 		fmt.Printf("baseline: %d discharged of %d obligations written\n", len(discharged), nObl)
+		// names and types of the locals of every unit function (and its closures): lets a later
+		// check follow a renamed local
+		locs := map[string][]localRec{}
+		var addFn func(f *ssa.Function)
+		addFn = func(f *ssa.Function) {
+			if f == nil || f.Blocks == nil {
+				return
+			}
+			locs[f.String()] = localsOf(f)
+			for _, af := range f.AnonFuncs {
+				addFn(af)
+			}
+		}
+		for _, u := range units {
+			addFn(u.fn)
+		}
+		if b, err := json.MarshalIndent(locs, "", " "); err == nil {
+			os.WriteFile(filepath.Join(dir, o.prop+".locals.json"), b, 0o644)
+		}
 	}
 	// print
 	if o.verbose || o.only != "" {
